@@ -45,7 +45,7 @@ TARGETS: t.List[t.Tuple[t.Any, t.Set[str]]] = [
     ('decimal', {'int', 'float', 'str'}), ('fraction', {'int', 'float', 'str'}),
     ('date', {'str'}), ('time', {'str'}), ('datetime', {'str'}), ('pattern', {'str'}), ('pattern_bytes', {'bytes'}),
     ('purepath', {'str'}),
-    ('enum_int', {'int'}), ('enum_str', {'str'}), ('lit_str', {'str'}), ('lit_mixed', {'int', 'str', 'none'}),
+    ('enum_int', {'int'}), ('enum_str', {'str'}), ('lit_str', {'str'}), ('lit_mixed', {'int', 'str', 'none'}), ('lit_long', {'int', 'bool', 'str', 'none'}),
     ('sub_int', {'int'}), ('sub_str', {'str'}), ('sub_float', {'float', 'int'}),
     (['list', 'int'], {'seq'}), (['list', 'str'], {'seq'}), (['list', 'any'], {'seq'}), (['tuplevar', 'int'], {'seq'}),
     (['tuple', 'int', 'int'], {'seq'}), (['tuple', 'str', 'str'], {'seq'}), (['set', 'str'], {'seq'}), ('bare_list', {'seq'}),
